@@ -193,3 +193,35 @@ def forwarding_insts(ctx, rid: str, wrapper: str, callee_names) -> List[R.Inst]:
     else:
         out.append(R.ok(rid, key, file, c.lineno, idiom=f"forwards {shared or 'nothing (no shared options)'}"))
     return out
+
+
+def dataclass_default_insts(ctx, cls: str, rid: str, written: Optional[set] = None) -> List[R.Inst]:
+    """declared scalar type of a dataclass field vs the type of its literal default: a `float` field whose default is `""` is
+    written as a string where the format defines a number (the default is what a freshly built or converted chart carries)"""
+    import ast as _ast
+    M = ctx.M
+    insts: List[R.Inst] = []
+    SCAL = {"str": str, "int": int, "float": (int, float), "bool": bool}
+    for k in [c for c in reversed(M.mro(cls)) if c in M.classes]:
+        node = M.classes[k].node
+        file = M.mods[M.classes[k].mod].rel
+        for st in node.body:
+            if not (isinstance(st, _ast.AnnAssign) and isinstance(st.target, _ast.Name) and st.value is not None):
+                continue
+            ann = _ast.unparse(st.annotation)
+            if ann not in SCAL:
+                continue
+            try:
+                v = M.lit(M.classes[k].mod, st.value, k)
+            except Exception:
+                continue
+            key = f"default:{st.target.id}"
+            ok_ = isinstance(v, SCAL[ann]) and not (ann in ("int", "float") and isinstance(v, bool))
+            if ok_:
+                insts.append(R.ok(rid, key, file, st.lineno, idiom=f"{ann} = {v!r}"))
+            else:
+                insts.append(R.viol(rid, key, file, st.lineno,
+                                    f"field '{st.target.id}' is declared {ann} but its default is {v!r} ({type(v).__name__}): a chart that "
+                                    f"never set it (built in memory, converted) is written with a value of the wrong type",
+                                    construct=f"{k.split('.')[-1]}.{st.target.id}: {ann} = {v!r}"))
+    return insts
